@@ -442,7 +442,7 @@ func main() {
 	r.Set("subtrees_capped", capped)
 	r.Set("exhaustive", capped == 0 && len(res.Abnormal) == 0)
 	r.Set("scenarios", perScenario)
-	r.Set("rule", "every interleaving with <= bound preemptions at the scheduling points (before each interpreted operation, at each channel operation incl. the call boundary of select, at contended locks, at script-level Mutex/WaitGroup operations, thread start), all select-case and rendezvous-partner choices; 12 templates x {Eval, EvalWithContext} + host-caller scenarios (2-3 host threads) + two interpreters; states = executions (nodes of the schedule tree), transitions = scheduling points executed, non-trivial = executions with >= 2 threads, >= 2 channel/lock operations and at least one context switch")
+	r.Set("rule", "every interleaving with <= bound preemptions at the scheduling points (before each interpreted operation, at each channel operation incl. the call boundary of select, at contended locks, at script-level Mutex/WaitGroup operations, thread start), all select-case and rendezvous-partner choices; the script templates (T1-T5, T8-T10 incl. every form of go statement with reference-kind arguments reassigned by the parent) x {Eval, EvalWithContext} + host-caller scenarios (2-3 host threads) + two interpreters; states = executions (nodes of the schedule tree), transitions = scheduling points executed, non-trivial = executions with >= 2 threads, >= 2 channel/lock operations and at least one context switch")
 	r.Assumptions = []string{"sequentially consistent memory, atomic blocks between scheduling points (the separate free-running -race pass is the guard for the rest)", "bounded preemptions, 2-3 threads, 1-3 items", "expected outputs come from the natively compiled twins"}
 	r.Sample(map[string]interface{}{"scenario": scs[0].Name, "schedule": []int{}, "src": scs[0].Src})
 	if len(jobs) > 0 {
